@@ -51,6 +51,9 @@ def run_case(case):
         h = vloop.run_harness(case, d)
         poolcase.eval_c13(h, res)
         res.sig = poolcase.event_string(h)
+        res.obs("events", h.events[:60])
+        res.obs("transitions", h.transitions[:40])
+        res.obs("final_states", h.snapshots[-1]["states"] if h.snapshots else None)
         kinds = [e["kind"] for e in h.events]
         bad_exit = any(e["kind"] == "exit" and e["code"] != 0 for e in h.events) or any(r["failed_to_start"] for r in h.spawns)
         res.nontrivial = ("cancel" in kinds or "time" in kinds) and bad_exit
